@@ -43,6 +43,7 @@ type PegSpec struct {
 	Refused  map[string]string // rule -> reason it has no spec
 	Mode     SpecMode
 	rowCache map[string][2]string
+	ruleDefs map[string]string // rule name -> definitions of the spec functions of its body
 }
 
 type SpecMode struct {
@@ -182,13 +183,11 @@ func (ps *PegSpec) Prelude(ruleConst map[string]int, ast bool) string {
 	for i := range ps.Preds {
 		fmt.Fprintf(&sb, "(declare-fun P_%d (Int) Bool)\n", i)
 	}
-	ps.defs = nil
+	ps.ruleDefs = map[string]string{}
 	for _, r := range ps.Rules {
+		ps.defs = nil
 		ps.define(r.Body)
-	}
-	for _, d := range ps.defs {
-		sb.WriteString(d)
-		sb.WriteString("\n")
+		ps.ruleDefs[r.Name] = strings.Join(ps.defs, "\n") + "\n"
 	}
 	// AS as a predicate on rule constants
 	var ors []string
@@ -300,32 +299,54 @@ func (ps *PegSpec) define(n *PNode) {
 			mx = ite(b("ok", "p"), sx(M, b("end", "p"), b("mx", "p", "m")), b("mx", "p", "m"))
 		}
 	case "Sequence":
+		// one family of definitions per prefix keeps the text linear in the number of members
 		pre, okpre, apre, mpre := "p", "true", "a", "m"
-		for _, c := range n.Kids {
-			cOK := sx(ps.f("ok", c), pre)
-			mpre = ite(okpre, sx(ps.f("mx", c), pre, mpre), mpre)
-			apre = sx(ps.f("app", c), pre, apre)
-			okpre = and(okpre, cOK)
-			pre = sx(ps.f("end", c), pre)
+		for i, c := range n.Kids {
+			nOK := and(okpre, sx(ps.f("ok", c), pre))
+			nM := ite(okpre, sx(ps.f("mx", c), pre, mpre), mpre)
+			nA := sx(ps.f("app", c), pre, apre)
+			nP := sx(ps.f("end", c), pre)
+			if i == len(n.Kids)-1 {
+				pre, okpre, apre, mpre = nP, nOK, nA, nM
+				break
+			}
+			ps.defs = append(ps.defs,
+				fmt.Sprintf("(define-fun sok_%d_%d ((p Int)) Bool %s)", k, i, nOK),
+				fmt.Sprintf("(define-fun spre_%d_%d ((p Int)) Int %s)", k, i, nP),
+				fmt.Sprintf("(define-fun sapp_%d_%d ((p Int) (a TSeq)) TSeq %s)", k, i, nA),
+				fmt.Sprintf("(define-fun smx_%d_%d ((p Int) (m DT_token)) DT_token %s)", k, i, nM))
+			pre, okpre = fmt.Sprintf("(spre_%d_%d p)", k, i), fmt.Sprintf("(sok_%d_%d p)", k, i)
+			apre, mpre = fmt.Sprintf("(sapp_%d_%d p a)", k, i), fmt.Sprintf("(smx_%d_%d p m)", k, i)
 		}
 		ok, end, app, mx = okpre, pre, apre, mpre
 	case "Alternate":
-		// build from the last alternative backwards
-		last := n.Kids[len(n.Kids)-1]
-		ok, end, app = sx(ps.f("ok", last), "p"), sx(ps.f("end", last), "p"), sx(ps.f("app", last), "p", "a")
-		for i := len(n.Kids) - 2; i >= 0; i-- {
+		// suffix families: alt_i = alternatives i..n-1
+		last := len(n.Kids) - 1
+		ok, end, app = sx(ps.f("ok", n.Kids[last]), "p"), sx(ps.f("end", n.Kids[last]), "p"), sx(ps.f("app", n.Kids[last]), "p", "a")
+		mx = sx(ps.f("mx", n.Kids[last]), "p", "m")
+		for i := last - 1; i >= 0; i-- {
 			c := n.Kids[i]
+			if i < last-1 {
+				ps.defs = append(ps.defs,
+					fmt.Sprintf("(define-fun aok_%d_%d ((p Int)) Bool %s)", k, i+1, ok),
+					fmt.Sprintf("(define-fun aend_%d_%d ((p Int)) Int %s)", k, i+1, end),
+					fmt.Sprintf("(define-fun aapp_%d_%d ((p Int) (a TSeq)) TSeq %s)", k, i+1, app),
+					fmt.Sprintf("(define-fun amx_%d_%d ((p Int) (m DT_token)) DT_token %s)", k, i+1, mx))
+				ok, end = fmt.Sprintf("(aok_%d_%d p)", k, i+1), fmt.Sprintf("(aend_%d_%d p)", k, i+1)
+				app = fmt.Sprintf("(aapp_%d_%d p a)", k, i+1)
+				mx = fmt.Sprintf("(amx_%d_%d p m)", k, i+1)
+			}
 			cOK := sx(ps.f("ok", c), "p")
+			// register: the first alternative is attempted; the rest only if it failed
+			restMx := strings.Replace(mx, " m)", " "+sx(ps.f("mx", c), "p", "m")+")", 1)
+			if !strings.HasSuffix(mx, " m)") {
+				panic("alternate mx shape")
+			}
+			mx = ite(cOK, sx(ps.f("mx", c), "p", "m"), restMx)
 			ok = or(cOK, ok)
 			end = ite(cOK, sx(ps.f("end", c), "p"), end)
 			app = ite(cOK, sx(ps.f("app", c), "p", "a"), app)
 		}
-		mcur, anyOK := "m", "false"
-		for _, c := range n.Kids {
-			mcur = ite(anyOK, mcur, sx(ps.f("mx", c), "p", mcur))
-			anyOK = or(anyOK, sx(ps.f("ok", c), "p"))
-		}
-		mx = mcur
 	default:
 		ps.Refused[fmt.Sprint(k)] = "node type " + n.TypeName + " has no row in the specification table"
 		ok, end, app, mx = "false", "p", "a", "m"
